@@ -90,6 +90,7 @@ class Scheduler(object):
     self.effective_preemptions = []
     self.events = []               # free-form log for harness code: (virtual time, thread idx, item)
     self.points_by_thread = collections.Counter()
+    self.named = {}                # name -> TState of helper threads that plans can wake
     self.tags = []                 # tag of every yield point (kept short) when trace_on
 
   # ------------------------------------------------------------------ bookkeeping
@@ -199,7 +200,14 @@ class Scheduler(object):
       choice = self.plan.get(k)
       if choice is None and self.rnd is not None and self.rnd.random() < self.rnd_p:
         choice = self.rnd.randrange(1 << 16)
-      if isinstance(choice, (list, tuple)):
+      if isinstance(choice, (list, tuple)) and choice[0] == 'wake':
+        # ('wake', name): a parked helper thread (e.g. the aborter) is released and runs right now
+        target = self.named.get(choice[1])
+        if target is not None and target.status == 'blocked':
+          self._wake(target, 'inject')
+          self.effective_preemptions.append((k, ts.idx, target.idx, tag))
+          self._switch(ts, target)
+      elif isinstance(choice, (list, tuple)):
         # ('stall', seconds): the OS deschedules this thread for a while - virtual time may pass between two lines
         ts.in_sched = False
         self.effective_preemptions.append((k, ts.idx, 'stall', tag))
@@ -345,6 +353,13 @@ class Scheduler(object):
       if reason == 'timeout':
         break
     return None
+
+  def park(self, name):
+    """Blocks the calling helper thread until a plan entry ('wake', name) releases it. Returns False at case end."""
+    me = self.me()
+    self.named[name] = me
+    reason = self.block(me, None, ('parked', name))
+    return reason == 'inject'
 
   def is_alive(self, thread):
     ts = getattr(thread, '_vsched_ts', None)
